@@ -66,12 +66,14 @@ class UpdateExtractor(BaseExtractor):
                 ):
                     holder.add_read(read_table)
 
-        for tgt_col in columns:
-            tgt_col.parent = list(holder.write)[0]
-            for src_col in tgt_col.to_source_columns(
-                holder.get_alias_mapping_from_table_group(list(holder.read))
-            ):
-                holder.add_column_lineage(src_col, tgt_col)
+        if holder.write:
+            # no column lineage without a target table, e.g. teradata "UPDATE FROM s SET a = s.a"
+            for tgt_col in columns:
+                tgt_col.parent = list(holder.write)[0]
+                for src_col in tgt_col.to_source_columns(
+                    holder.get_alias_mapping_from_table_group(list(holder.read))
+                ):
+                    holder.add_column_lineage(src_col, tgt_col)
 
         self.extract_subquery(subqueries, holder)
 
